@@ -100,53 +100,69 @@ Proof. exact (conj escape_default_nonempty escape_default_injective). Qed.
 Print Assumptions C17_msg_escape_default_faithful.
 
 (* ------------------------------------------------------------------ *)
-(** Non-vacuity: concrete messages *)
+(** Non-vacuity: concrete messages.  The examples do not pin the wording (the format
+    strings are regenerated from the source; rewording a message while keeping its values
+    must not break anything): they show that the rendered text is defined, shows the
+    values and contains more than the values. *)
 
-(** "FASTA parse error: expected '>' but found '\n' at file start, line 12." *)
+(** e.g. "FASTA parse error: expected '>' but found '\n' at file start, line 12." *)
 Example C17_msg_fa_example :
-  fa_message (FaInvalidStart 12 10) =
-  [70; 65; 83; 84; 65; 32; 112; 97; 114; 115; 101; 32; 101; 114; 114; 111; 114; 58; 32;
-   101; 120; 112; 101; 99; 116; 101; 100; 32; 39; 62; 39; 32; 98; 117; 116; 32; 102; 111;
-   117; 110; 100; 32; 39; 92; 110; 39; 32; 97; 116; 32; 102; 105; 108; 101; 32; 115; 116;
-   97; 114; 116; 44; 32; 108; 105; 110; 101; 32; 49; 50; 46]
-  /\ dec 12 = [49; 50] /\ escape_default 10 = [92; 110].
-Proof. vm_compute. repeat split. Qed.
+  dec 12 = [49; 50] /\ escape_default 10 = [92; 110] /\
+  infix [49; 50] (fa_message (FaInvalidStart 12 10)) /\ infix [92; 110] (fa_message (FaInvalidStart 12 10)) /\
+  length (dec 12) + length (escape_default 10) < length (fa_message (FaInvalidStart 12 10)).
+Proof.
+  split; [vm_compute; reflexivity|]. split; [vm_compute; reflexivity|].
+  split; [exact (proj1 (fa_invalid_start_msg 12 10))|]. split; [exact (proj2 (fa_invalid_start_msg 12 10))|].
+  vm_compute. lia.
+Qed.
 
-(** "FASTQ parse error: expected '@' at record start but found '\n' (record 'id' at line 3)." *)
+(** e.g. "FASTQ parse error: expected '@' at record start but found '\n' (record 'id' at line 3)." *)
 Example C17_msg_fq_invalid_start_example :
-  fq_message (FqInvalidStart 10 3 (Some [105; 100])) = Some
-  [70; 65; 83; 84; 81; 32; 112; 97; 114; 115; 101; 32; 101; 114; 114; 111; 114; 58; 32;
-   101; 120; 112; 101; 99; 116; 101; 100; 32; 39; 64; 39; 32; 97; 116; 32; 114; 101; 99;
-   111; 114; 100; 32; 115; 116; 97; 114; 116; 32; 98; 117; 116; 32; 102; 111; 117; 110;
-   100; 32; 39; 92; 110; 39; 32; 40; 114; 101; 99; 111; 114; 100; 32; 39; 105; 100; 39;
-   32; 97; 116; 32; 108; 105; 110; 101; 32; 51; 41; 46].
-Proof. vm_compute. reflexivity. Qed.
+  exists m, fq_message (FqInvalidStart 10 3 (Some [105; 100])) = Some m /\
+            infix [92; 110] m /\ infix [51] m /\ infix [105; 100] m /\ 2 + 1 + 2 < length m.
+Proof.
+  destruct (fq_message (FqInvalidStart 10 3 (Some [105; 100]))) as [m|] eqn:E; [|vm_compute in E; discriminate].
+  exists m. split; [reflexivity|].
+  destruct (fq_invalid_start_msg _ _ _ _ E) as (A & B & C). destruct (C _ eq_refl) as [D _].
+  split; [exact A|]. split; [exact B|]. split; [exact D|].
+  vm_compute in E. injection E as <-. vm_compute. lia.
+Qed.
 
-(** "FASTQ parse error: Expected '+' separator but found 'A' (line 7)." — no id *)
+(** e.g. "FASTQ parse error: Expected '+' separator but found 'A' (line 7)." — no id *)
 Example C17_msg_fq_invalid_sep_example :
-  fq_message (FqInvalidSep 65 7 None) = Some
-  [70; 65; 83; 84; 81; 32; 112; 97; 114; 115; 101; 32; 101; 114; 114; 111; 114; 58; 32;
-   69; 120; 112; 101; 99; 116; 101; 100; 32; 39; 43; 39; 32; 115; 101; 112; 97; 114; 97;
-   116; 111; 114; 32; 98; 117; 116; 32; 102; 111; 117; 110; 100; 32; 39; 65; 39; 32; 40;
-   108; 105; 110; 101; 32; 55; 41; 46].
-Proof. vm_compute. reflexivity. Qed.
+  exists m, fq_message (FqInvalidSep 65 7 None) = Some m /\ infix [65] m /\ infix [55] m /\ 2 < length m.
+Proof.
+  destruct (fq_message (FqInvalidSep 65 7 None)) as [m|] eqn:E; [|vm_compute in E; discriminate].
+  exists m. split; [reflexivity|].
+  destruct (fq_invalid_sep_msg _ _ _ _ E) as (A & B & _).
+  split; [exact A|]. split; [exact B|].
+  vm_compute in E. injection E as <-. vm_compute. lia.
+Qed.
 
-(** "FASTQ parse error: sequence length is 4, but quality length is 13 (record 'id' at line 9)." *)
+(** e.g. "FASTQ parse error: sequence length is 4, but quality length is 13 (record 'id' at line 9)." *)
 Example C17_msg_fq_unequal_lengths_example :
-  fq_message (FqUnequalLengths 4 13 9 (Some [105; 100])) = Some
-  [70; 65; 83; 84; 81; 32; 112; 97; 114; 115; 101; 32; 101; 114; 114; 111; 114; 58; 32;
-   115; 101; 113; 117; 101; 110; 99; 101; 32; 108; 101; 110; 103; 116; 104; 32; 105; 115;
-   32; 52; 44; 32; 98; 117; 116; 32; 113; 117; 97; 108; 105; 116; 121; 32; 108; 101; 110;
-   103; 116; 104; 32; 105; 115; 32; 49; 51; 32; 40; 114; 101; 99; 111; 114; 100; 32; 39;
-   105; 100; 39; 32; 97; 116; 32; 108; 105; 110; 101; 32; 57; 41; 46].
-Proof. vm_compute. reflexivity. Qed.
+  exists m, fq_message (FqUnequalLengths 4 13 9 (Some [105; 100])) = Some m /\
+            infix [52] m /\ infix [49; 51] m /\ infix [57] m /\ infix [105; 100] m /\ 6 < length m.
+Proof.
+  destruct (fq_message (FqUnequalLengths 4 13 9 (Some [105; 100]))) as [m|] eqn:E; [|vm_compute in E; discriminate].
+  exists m. split; [reflexivity|].
+  destruct (fq_unequal_lengths_msg _ _ _ _ _ E) as (A & B & C & D). destruct (D _ eq_refl) as [D' _].
+  split; [exact A|]. split; [exact B|]. split; [exact C|]. split; [exact D'|].
+  vm_compute in E. injection E as <-. vm_compute. lia.
+Qed.
 
 (** UnexpectedEnd with a two-byte UTF-8 id is rendered; with a truncated
     UTF-8 id it is not (the excluded case) *)
 Example C17_msg_fq_unexpected_end_example :
-  (exists m, fq_message (FqUnexpectedEnd 104 (Some [195; 169])) = Some m /\ length m = 69) /\
+  (exists m, fq_message (FqUnexpectedEnd 104 (Some [195; 169])) = Some m /\ infix [49; 48; 52] m /\ infix [195; 169] m) /\
   fq_message (FqUnexpectedEnd 104 (Some [195])) = None.
-Proof. split; [eexists; split|]; vm_compute; reflexivity. Qed.
+Proof.
+  split; [|vm_compute; reflexivity].
+  destruct (fq_message (FqUnexpectedEnd 104 (Some [195; 169]))) as [m|] eqn:E; [|vm_compute in E; discriminate].
+  exists m. split; [reflexivity|].
+  destruct (fq_unexpected_end_msg _ _ _ E) as (A & B). destruct (B _ eq_refl) as [B' _].
+  split; [exact A | exact B'].
+Qed.
 
 (** hypothesis of C17_msg_render_all_shows on a generated format *)
 Example C17_msg_render_example :
